@@ -196,6 +196,48 @@ def call_sites(ctx, sel):
     res.notes.append(f'call sites: {len(metas)} conversions — every string key of every type in its own command, and the naming keys ImageTag/VolumeName/NetworkName/ContainerName in the command of a referring unit')
 
 
+def through_files(ctx, sel):
+    """the same observation with the unit read from a *file* by the real binary (load_from_path is not on the path of the text-level
+    operations): the spelling is one line of a unit file, with whatever characters it holds — control characters, CR, NEL, line
+    and paragraph separators — and the option value must be the string"""
+    import e2e, shutil, re as _re
+    res, rnd = ctx.res, ctx.rnd
+    odd = [p for p in sel if p[0] and p[0] == p[0].strip() and any(ord(c) < 0x20 or c in '\x7f\x85\xa0\u2028\u2029' for c in p[1])]
+    plain = [p for p in sel if p[0] and p[0] == p[0].strip() and p not in odd]
+    n = 240 if ctx.thorough else 60
+    chosen = rnd.sample(odd, min(len(odd), n)) + rnd.sample(plain, min(len(plain), n // 3))
+    groups = [chosen[i:i + 12] for i in range(0, len(chosen), 12)]
+
+    def run(group):
+        base = e2e.fresh_dir()
+        files = {f'src/u{i}.container': f'[Container]\nImage=localhost/img\nContainerName={sp}\nHostName={sp}\n' for i, (s_, sp) in enumerate(group)}
+        e2e.write_tree(base, files)
+        rc, so, se = e2e.run_binary(['--dry-run', '--no-kmsg-log', os.path.join(base, 'out')], os.path.join(base, 'src'))
+        shutil.rmtree(base, ignore_errors=True)
+        printed, _ = e2e.split_dry_run(so)
+        return rc, {os.path.basename(k): v for k, v in printed.items()}, se
+    import os
+    for group, (rc, printed, se) in zip(groups, e2e.pmap(run, groups)):
+        lines = []
+        for i in range(len(group)):
+            m = _re.search(r'^ExecStart=(.*)$', printed.get(f'u{i}.service', ''), _re.M)
+            lines.append(m.group(1) if m else None)
+        sp_out = iter(ctx.model(['spec_split_exec\t' + hx(l) for l in lines if l is not None]))
+        for (s_, sp), l in zip(group, lines):
+            res.oracle_evals += 1
+            if l is None:
+                res.oracle_failures.append(dict(op='e2e file', input=dict(string=s_, spelling=sp), impl_output=f'exit {rc}; {e2e.error_lines(se)[:3]}',
+                                                oracle_expectation='a unit file with this one-line spelling of a plain string converts'))
+                continue
+            b = next(sp_out)
+            av = [unhx(t) for t in b[4:-1].split(' ') if t] if b.startswith('ok [') else []
+            got = {f: av[i + 1] for i in range(len(av) - 1) for f in ('--name', '--hostname') if av[i] == f}
+            if got.get('--name') != s_ or got.get('--hostname') != s_:
+                res.oracle_failures.append(dict(op='e2e file', input=dict(string=s_, spelling=sp), impl_output=str(got),
+                                                oracle_expectation=f'read from a file, ContainerName= and HostName= spelled {sp!r} reach podman as {s_!r}'))
+    res.notes.append(f'through files: {len(chosen)} spellings in unit files read by the real binary ({len(odd)} candidates hold control or separator characters)')
+
+
 def oracle(ctx):
     res = ctx.res
     pairs = getattr(ctx, '_c04', None)
@@ -243,5 +285,6 @@ def oracle(ctx):
             res.oracle_failures.append(dict(op=op, input=dict(spelling=sp), impl_output=core.dec_line(a),
                                             oracle_expectation=f'the escape in {sp!r} is valid and denotes ' + (repr(want_exact) if want_exact is not None else 'one character (or byte)')))
     call_sites(ctx, [p for p in sel if p[0] and p[0] == p[0].strip() and not any(ord(c) < 0x20 for c in p[0])])
+    through_files(ctx, sel)
     res.samples.append(dict(kind='oracle-case', string=pairs[len(pairs) // 2][0], spelling=pairs[len(pairs) // 2][1]))
     ctx.log(f'oracle: {res.oracle_evals} evaluations, {len(res.oracle_failures)} failures')
